@@ -34,6 +34,9 @@ def run(rep, work, rng, tier):
     for k in ([1, 2, 3, 4, 5, 8, 16, 17] if tier == 'quick' else list(range(1, 70))):
         for how in ('plain', 'sized', 'copied'):
             add('element-appended-to-its-own-container', 'self%d%s' % (k, how), ['mk.self %d %d %s' % (k, j, how) for j in sorted(set([0, k // 2, k - 1]))])
+        # ... and stored AT AN INDEX of its own container: inside (replacement), at the size, beyond it (the vector grows first)
+        add('element-stored-at-an-index-of-its-own-container', 'selfat%d' % k,
+            ['mk.selfat %d %d %d' % (k, j, at) for j in sorted(set([0, k - 1])) for at in sorted(set([0, k - 1, k, k + 1, k + 9, 4 * k + 3]))])
     # the per-point / per-channel lists (LABELS, DESCRIPTIONS, UNITS, SCALE, OFFSET) set by the caller to a length other than the
     # count, then a point or a channel is added: the updater rebuilds every list from the stored one
     from lib.harness import hx
@@ -52,6 +55,16 @@ def run(rep, work, rng, tier):
             lines += ['P.new %s x' % hx(nm), setl, 'param 0 ' + hx(grp)]
         lines += ['analog 0 ' + hx(b'Fx'), 'snap 0', 'point 0 ' + hx(b'Mk'), 'snap 0', 'analog 0 ' + hx(b'Fy'), 'snap 0', 'print 0', 'drop 0']
         add('label-like lists of another length, then a column is declared', 'lst%d' % i, lines)
+    # a caller-side parameter whose set() was REFUSED (dimensions that do not match the values), then stored and saved: whatever the
+    # refused call left behind, the writer must stay inside the value vectors
+    for i in range(16 if tier == 'quick' else 800):
+        ty = rng.choice('IFS'); k = rng.choice([1, 2, 3])
+        okv = {'I': ' '.join(['7'] * k), 'F': ' '.join(['3f800000'] * k), 'S': ' '.join(hx(b'v%d' % j) for j in range(k))}[ty]
+        d1, d2 = rng.choice([(2, 3), (3, 3), (4, 2), (2, 2), (255, 2)]); nv = rng.choice([k, d1 * d2 - 1, 1])
+        badv = {'I': ' '.join(['9'] * nv), 'F': ' '.join(['40000000'] * nv), 'S': ' '.join(hx(b'w%d' % j) for j in range(nv))}[ty]
+        lines = ['new 0', 'P.new %s x' % hx(b'REF'), 'P.set %s 0 %d %s' % (ty, k, okv), 'P.set %s 2 %d %d %d %s' % (ty, d1, d2, nv, badv), 'P.show',
+                 'param 0 ' + hx(rng.choice([b'EXTRA', b'POINT'])), 'snap 0', 'save 0 ref%d.c3d' % i, 'load 1 ref%d.c3d' % i, 'snap 1', 'print 0', 'drop 0', 'drop 1']
+        add('refused set, then stored and saved', 'ref%d' % i, lines)
     (cres, cown, cerr), (mres, mown, merr) = harness.run_both(cases, work, shared=shared, flavor='asan',
         cxx_env={'ASAN_OPTIONS': 'detect_leaks=1:abort_on_error=1:new_delete_type_mismatch=1:alloc_dealloc_mismatch=1'})
     bad = 0; nd = 0; skipped_ub = 0; clean = 0
